@@ -1,10 +1,10 @@
 package main
 
 import (
-	"go/types"
 	"fmt"
 	"go/constant"
 	"go/token"
+	"go/types"
 	"sort"
 	"strings"
 
@@ -613,7 +613,9 @@ func runC09(c *Ctx) {
 				if f.T.Op != "bin" || len(f.T.Args) != 2 {
 					return false
 				}
-				isLen := func(t *Term) bool { return t.Op == "call" && strings.Contains(t.String(), "builtin.len") && rootParam(t) == qp }
+				isLen := func(t *Term) bool {
+					return t.Op == "call" && strings.Contains(t.String(), "builtin.len") && rootParam(t) == qp
+				}
 				zero := func(t *Term) bool { return t.String() == "const:0" }
 				switch {
 				case f.T.Name == "==" && f.Pol, f.T.Name == "!=" && !f.Pol:
@@ -705,10 +707,11 @@ func isCallNamedInstr(name string) func(ssa.Instruction) bool {
 }
 
 // runC09Leftovers (O11, O12): "surplus stays undistributed only if every queue is satisfied".
-//   O11 — the distribution loops stop on the running amount only when it is exactly exhausted: a comparison of the
-//         amount with anything but 0 (“less than one unit left”) strands the fraction that fractional requests leave;
-//   O12 — in the pass that hands back the rounded-off units, every queue taken from the ordered list receives its
-//         unit: a queue that is popped and skipped is gone from the list, and its unit stays with nobody.
+//
+//	O11 — the distribution loops stop on the running amount only when it is exactly exhausted: a comparison of the
+//	      amount with anything but 0 (“less than one unit left”) strands the fraction that fractional requests leave;
+//	O12 — in the pass that hands back the rounded-off units, every queue taken from the ordered list receives its
+//	      unit: a queue that is popped and skipped is gone from the list, and its unit stays with nobody.
 func runC09Leftovers(c *Ctx) {
 	const pkg = "pkg/scheduler/plugins/proportion/resource_division"
 	n := 0
